@@ -4,6 +4,7 @@ import json, os, re, glob
 ROOT = os.path.dirname(os.path.dirname(os.path.abspath(__file__)))
 rows = []
 corpus = {}
+HIST = json.load(open(os.path.join(ROOT, "seeded", "HISTORY.json"))) if os.path.exists(os.path.join(ROOT, "seeded", "HISTORY.json")) else {}
 for d in sorted(glob.glob(os.path.join(ROOT, "seeded", "C*"))):
     mp = os.path.join(d, "meta.json")
     if not os.path.exists(mp):
@@ -28,7 +29,7 @@ for d in sorted(glob.glob(os.path.join(ROOT, "seeded", "C*"))):
                 sample = f"program layer ({pc.get('kind')}): {str(pc.get('literal') or pc.get('declaration'))[:120]}"
         except Exception:
             pass
-    rows.append((sid, m["breaks_property"], det, what, sample, m.get("history", "")))
+    rows.append((sid, m["breaks_property"], det, what, sample, HIST.get(sid, "")))
 out = ["# Seeded changes and which checks catch them", "",
        "Each change was produced by an independent sub-agent that saw only the property text and a scratch worktree, was re-confirmed",
        "(existing suite passes with it; its demonstration fails with it and passes without), applied to `/repo`, run against the quick",
@@ -37,7 +38,9 @@ out = ["# Seeded changes and which checks catch them", "",
 for r in rows:
     out.append("| " + " | ".join(x.replace("|", "\\|") for x in r) + " |")
 caught = sum(1 for r in rows if "missed" not in r[2])
-out += ["", f"{caught} of {len(rows)} seeded changes are caught by the quick check of the property they break.", ""]
+own = sum(1 for r in rows if r[1] in r[2])
+out += ["", f"{caught} of {len(rows)} seeded changes are caught by a registered quick check; {own} of them by the quick check of the very property they were aimed at "
+        "(the others are violations of a neighbouring property and are caught there; see the history column).", ""]
 open(os.path.join(ROOT, "seeded", "RESULTS.md"), "w").write("\n".join(out))
 os.makedirs(os.path.join(ROOT, "corpus"), exist_ok=True)
 for prop, lines in corpus.items():
